@@ -96,9 +96,12 @@ func VerifHarness_C16_Step2() { c16Step(2) }
 func VerifHarness_C16_Step3() { c16Step(3) }
 
 // (3) the derived views agree with the entries
-func c16Views(n int) {
+func c16Views(n int) { c16ViewsOn(c16Entries(n)) }
+
+func c16ViewsOn(entries []SearchEntry) {
+	n := len(entries)
 	sh := NewSearchHistory("/nowhere", 100)
-	sh.Entries = c16Entries(n)
+	sh.Entries = entries
 	limit := verifIntRange("limit", 0, n+1)
 	eff := limit
 	if eff <= 0 {
@@ -158,3 +161,42 @@ func c16Views(n int) {
 
 func VerifHarness_C16_Views2() { c16Views(verifIntRange("n", 0, 2)) }
 func VerifHarness_C16_Views3() { c16Views(3) }
+
+// longer logs over a 3-query alphabet: repeats that are not adjacent, distinct queries further
+// back than the newest `limit` entries
+func VerifHarness_C16_Views5() {
+	n := verifIntRange("n", 4, 5)
+	var entries []SearchEntry
+	for i := 0; i < n; i++ {
+		entries = append(entries, SearchEntry{Query: []string{"a", "b", "c"}[verifIntRange("hq", 0, 2)], Timestamp: time.Unix(int64(1000+i), 0), ResultsCount: 1, Duration: 5})
+	}
+	c16ViewsOn(entries)
+}
+
+// loading replaces what an instance holds by what the file holds — also when the file was
+// saved by another instance with fewer (or no) entries
+func VerifHarness_C16_ReloadOther() {
+	path := verifFSRoot() + "/state/history.json"
+	live := NewSearchHistory(path, 5)
+	live.Entries = c16Entries(verifIntRange("held", 0, 2))
+	other := NewSearchHistory(path, 5)
+	other.Entries = c16Entries(verifIntRange("stored", 0, 2))
+	if verifBool("cleared") {
+		if err := other.Clear(); err != nil {
+			return
+		}
+	} else if err := other.Save(); err != nil {
+		return
+	}
+	lerr := live.Load()
+	verifAssert(lerr == nil, "C16: a saved history loads")
+	verifAssert(len(live.Entries) == len(other.Entries), "C16: saving and loading gives back the same entries (count; a loaded instance holds what the file holds)")
+	if len(live.Entries) == len(other.Entries) {
+		for i := range other.Entries {
+			verifAssert(live.Entries[i].Query == other.Entries[i].Query, "C16: saving and loading gives back the same entries")
+		}
+	}
+	st := live.GetStats()
+	verifAssert(st.TotalSearches == len(other.Entries), "C16: statistics agree with the stored entries")
+	verifReach("roundtrip")
+}
